@@ -430,6 +430,26 @@ def _appends_per_iteration(lp: ast.For, res: str) -> Set[int]:
 # R3 well-formed placements / R4 time lower bounds
 # ---------------------------------------------------------------------------
 
+def r11_variable_table_keys(ctx: Context, rule: str = "C10.R11") -> None:
+    ctx.rule(rule, "the planners' task -> variables tables are keyed by something unique to the task (unique_name / id / the task itself): "
+                   "keyed by the bare job name, tasks of different graphs that share a name overwrite each other and one of them gets no "
+                   "constraints and no decision")
+    n = 0
+    for rel, cname in MODEL_BASED:
+        cls = ctx.repo.mod(rel).cls(cname)
+        for fn in methods(cls).values():
+            for a in ast.walk(fn):
+                if isinstance(a, ast.Assign) and len(a.targets) == 1 and isinstance(a.targets[0], ast.Subscript) \
+                        and norm(a.targets[0].value) in ("tasks_to_variables", "self._tasks_to_variables") and isinstance(a.value, ast.Call):
+                    k = a.targets[0].slice
+                    n += 1
+                    ok = not (isinstance(k, ast.Attribute) and k.attr in ("name", "task_graph", "timestamp", "profile"))
+                    ctx.check(ok, rule, f"{rel}::{cname}.{fn.name}|variables keyed by `{norm(k)[:40]}`", loc(a), "unique key",
+                              f"the variable table is keyed by `{norm(k)}`, which tasks of different task graphs share: the later task replaces the "
+                              "earlier one, which is then neither constrained nor answered")
+    ctx.floor(rule, "stores into a task -> variables table", n, 3)
+
+
 def r3_well_formed(ctx: Context, rule: str = "C10.R3") -> None:
     ctx.rule(rule, "placed decisions: pool id from the cluster planned on, strategy from the task's own list and supplied, time = now or a model start value")
     from . import c05
@@ -1003,6 +1023,7 @@ def run(ctx: Context) -> None:
     ctx.isolate(c04.r4_r5_copies, rule4="C10.R1b", rule5="C10.R1c")
     ctx.isolate(r2_one_decision)
     ctx.isolate(r3_well_formed)
+    ctx.isolate(r11_variable_table_keys)
     ctx.isolate(r4_time_lower_bounds)
     ctx.isolate(r5_capacity)
     ctx.isolate(r5b_capacity_grid)
